@@ -321,6 +321,15 @@ func genC04Shapes(w *caseWriter, st *pkgStats) int {
 		c.APK.Signature.KeyFile, c.APK.Signature.KeyName = filepath.Join(repoDir(), "internal/sign/testdata/rsa_unprotected.priv"), "verif.rsa.pub"
 		emit("signed-"+typ, c, nil)
 	}
+	// payloads larger than one block of any compressor, under every compression a deb can name: the reference reader
+	// (dpkg-deb) must be able to unpack the member with its default limits
+	for _, dc := range []string{"gzip", "xz", "zstd", "none"} {
+		c = baseConfig("bigdeb")
+		c.Deb.Compression = dc
+		c.Contents = files.Contents{{Source: "src/big.bin", Destination: "/opt/bigdeb/big.bin"}, {Source: "src/big2.bin", Destination: "/opt/bigdeb/big2.bin"}}
+		n++
+		runPkgCase(w, fmt.Sprintf("h-big-deb-%s-%d", dc, n), pkgDesc{YAML: marshalConfig(&c), Formats: []string{"deb", "archlinux"}}, st, nil)
+	}
 	for _, size := range []int{512, 1024, 4096, 511, 513} {
 		c = baseConfig("blocks")
 		c.Contents = files.Contents{{Source: "src/f1", Destination: "/usr/bin/f1"}}
@@ -422,6 +431,48 @@ func genEdgeShapes(w *caseWriter, st *pkgStats) int {
 	c.Contents = files.Contents{{Destination: "/var/lib/longownerdir", Type: files.TypeDir, FileInfo: &files.ContentFileInfo{Owner: long40, Group: "g" + long40, Mode: 0o750}},
 		{Source: "src/f1", Destination: "/var/lib/longownerdir/f1"}, {Source: "src/k", Destination: "/var/lib/longownerdir/tree", Type: files.TypeTree}}
 	emit("owner-names-of-40-bytes-on-directories", c, nil)
+	// declared modes whose value, printed in decimal, looks like an octal mode (0o1363 is 755, 0o1204 is 644 ...): they are
+	// numbers like any other and are stored verbatim
+	c = baseConfig("decimalmodes")
+	c.Contents = files.Contents{
+		{Source: "src/f1", Destination: "/opt/decimal/is755", FileInfo: &files.ContentFileInfo{Mode: 0o1363}},
+		{Source: "src/f2", Destination: "/opt/decimal/is644", FileInfo: &files.ContentFileInfo{Mode: 0o1204}},
+		{Source: "src/f1", Destination: "/opt/decimal/is777", FileInfo: &files.ContentFileInfo{Mode: 0o1411}},
+		{Source: "src/f1", Destination: "/opt/decimal/is512", FileInfo: &files.ContentFileInfo{Mode: 0o1000}},
+		{Source: "src/f1", Destination: "/opt/decimal/is600", Type: files.TypeConfig, FileInfo: &files.ContentFileInfo{Mode: 0o1130}},
+		{Destination: "/opt/decimal/dir750", Type: files.TypeDir, FileInfo: &files.ContentFileInfo{Mode: 0o1356}},
+		{Source: "src/k", Destination: "/opt/decimal/tree", Type: files.TypeTree, FileInfo: &files.ContentFileInfo{Mode: 0o1274}},
+	}
+	emit("modes-that-read-as-octal-in-decimal", c, nil)
+	// symbolic links on disk that cannot be followed (a loop, a path through a regular file) or whose target is not
+	// lexically clean: a link is packaged as the link it is, target verbatim, however it was found
+	c = baseConfig("oddlinks")
+	odd := []extraFile{{Path: "src/odd/a.txt", Hex: hex.EncodeToString([]byte("a")), Mode: 0o644, MTime: 1650000200},
+		{Path: "src/odd/self", Link: "self"}, {Path: "src/odd/through-file", Link: "a.txt/inner"},
+		{Path: "src/odd/dotrel", Link: "./a.txt"}, {Path: "src/odd/doubled", Link: "..//odd/a.txt"},
+		{Path: "src/odd/trailing", Link: "../odd/"}, {Path: "src/odd/updown", Link: "sub/../a.txt"},
+		{Path: "src/odd/ping", Link: "pong"}, {Path: "src/odd/pong", Link: "ping"}}
+	c.Contents = files.Contents{{Source: "src/odd/*", Destination: "/opt/odd-glob/"}, {Source: "src/odd", Destination: "/opt/odd-dir"},
+		{Source: "src/odd", Destination: "/opt/odd-tree", Type: files.TypeTree}, {Source: "src/odd/self", Destination: "/opt/odd-single/self"},
+		{Source: "src/odd/doubled", Destination: "/opt/odd-single/doubled", Type: files.TypeConfig}}
+	emit("links-that-cannot-be-followed-or-are-not-clean", c, odd)
+	// a configuration directory declared for every format and claimed, with its own mode, by an rpm-only dir entry (the
+	// set-up the documentation of dir recommends); likewise a format-specific symlink beside a common config glob
+	c = baseConfig("claimed")
+	c.Contents = files.Contents{{Source: "src/k/conf.d/", Destination: "/etc/claimed", Type: files.TypeConfigNoReplace},
+		{Destination: "/etc/claimed", Type: files.TypeDir, Packager: "rpm", FileInfo: &files.ContentFileInfo{Mode: 0o750}},
+		{Source: "src/d/*", Destination: "/etc/claimed2/", Type: files.TypeConfig},
+		{Destination: "/etc/claimed2/", Type: files.TypeDir, Packager: "deb", FileInfo: &files.ContentFileInfo{Mode: 0o700}},
+		{Destination: "/etc/claimed2", Type: files.TypeDir, Packager: "archlinux"}}
+	emit("config-directory-claimed-by-a-format-specific-dir", c, nil)
+	// a declared configuration file whose source is not there: no package, whatever the flavour
+	for i, typ := range []string{files.TypeConfig, files.TypeConfigNoReplace, files.TypeConfigMissingOK, files.TypeFile} {
+		for j, src := range []string{"src/not-there.conf", "src/conf.none/*.conf"} {
+			c = baseConfig("absentconf")
+			c.Contents = files.Contents{{Source: "src/f1", Destination: "/usr/bin/absentconf"}, {Source: src, Destination: "/etc/absentconf/", Type: typ}}
+			emit(fmt.Sprintf("config-source-absent-%d-%d", i, j), c, nil)
+		}
+	}
 	c = baseConfig("nodate")
 	c.Changelog = "changelog.yaml"
 	c.Contents = files.Contents{{Source: "src/f1", Destination: "/usr/bin/nodate"}}
